@@ -6,6 +6,7 @@ mod kit;
 mod oracles;
 mod bfs;
 mod props_paths;
+mod props_api;
 mod props_bounds;
 mod props_prm;
 mod props_repro;
@@ -49,6 +50,7 @@ fn main() {
                 "C12" => props_bounds::run_c12(tier),
                 "C14" => props_uniform::run(tier),
                 "C07" => props_repro::run(tier),
+                "C08" => props_api::run("C08", tier),
                 _ => usage(),
             }
         }
